@@ -31,6 +31,7 @@ THEOREMS = [
     "swap_uniforms_pre_drawn",
     "parallel_step_eq_serial",
     "one_replica_steps",
+    "one_replica_old_guard_draws",
     "cache_valid_after_step",
     "cache_valid_after_add",
     "reachable_cacheValid",
